@@ -694,7 +694,7 @@ def _drive_optimize(plan, out, tr):
             seam_rejected = c["opt"] == "LM" and sch.solves_per_step[k] >= 2
             if seam_rejected != (rc > 0):
                 out.probe("optimizer-counter-disagrees-with-seam")
-            causes = ref.step(not (decr < d), rejected=seam_rejected or rc > 0)
+            causes = ref.step(not (decr < d), rejected=seam_rejected if c["opt"] == "LM" else rc > 0)
             if not was:
                 for cz in causes:
                     out.probe("stop:" + cz)
@@ -706,6 +706,47 @@ def _drive_optimize(plan, out, tr):
             if n and not ref.stopped:
                 raise Violation("C20.liveness", "optimize() returned after %d steps although no stop condition of "
                                 "the reference automaton had fired" % n, o["id"], "optimize:early")
+            # the optimisation is continued with a fresh scheduler on the same optimizer: its steps are judged on
+            # their own (budget, patience and "the optimizer's last step involved a rejection" all start afresh)
+            if rng.H(s, "continue", o["id"]) % 2 == 0:
+                steps2 = 1 + rng.H(s, "continue-steps", o["id"]) % 4
+                sch2 = RecordingPlateau(opt, steps=steps2, patience=c["patience"], decreasing=c["decreasing"],
+                                        cap=10 * steps2 + 5)
+                sch2.solver_ref = solver
+                sch2._calls_seen = solver.calls
+                solver.cap = solver.calls + (c["reject"] + 2) * (10 * steps2 + 5)
+                esc2 = False
+                try:
+                    with contextlib.redirect_stdout(io.StringIO()):
+                        sch2.optimize(inp)
+                except StepCap:
+                    raise Violation("C20.liveness", "optimize() of a fresh scheduler on a used optimizer did not stop within "
+                                    "the cap (steps=%d)" % steps2, o["id"], "optimize:cap3")
+                except RuntimeError as e:
+                    if "injected solver failure" not in str(e):
+                        raise
+                    esc2 = True
+                out.probe("driver:optimize-continued")
+                out.sim_time += len(sch2.seen)
+                if len(sch2.seen) > steps2:
+                    raise Violation("C20.budget", "continued optimize() made %d scheduler steps, budget steps=%d" %
+                                    (len(sch2.seen), steps2), o["id"], "optimize:budget")
+                ref2 = RefCtl(steps2, c["patience"])
+                for k, (last, loss, rc) in enumerate(sch2.seen):
+                    decr = last - loss
+                    if abs(decr - d) < 1e-9 * max(abs(last), abs(loss), 1.0) and decr != d:
+                        out.declined("C20.near-threshold"); break
+                    rej = (sch2.solves_per_step[k] >= 2) if c["opt"] == "LM" else rc > 0
+                    ref2.step(not (decr < d), rejected=rej)
+                    if k < len(sch2.after) and sch2.after[k] != (not ref2.stopped):
+                        raise Violation("C20.continual", "fresh scheduler on a used optimizer: after its step %d (last=%r "
+                                        "loss=%r, %d solve(s) in the optimizer step, reject_count=%d) continual()=%s, "
+                                        "reference says %s" % (k, last, loss, sch2.solves_per_step[k], rc, sch2.after[k],
+                                                               not ref2.stopped), o["id"], "optimize:continued")
+                else:
+                    if not esc2 and sch2.seen and not ref2.stopped:
+                        raise Violation("C20.liveness", "continued optimize() returned after %d steps although no stop "
+                                        "condition had fired" % len(sch2.seen), o["id"], "optimize:early")
     out.nontrivial = True
 
 
